@@ -6,35 +6,35 @@ func init() {
 		Scope:       map[string][]string{"R-CURSORRESET": {"vectorSelector"}, "R-ITERERR": {"selectPoint "}, "R-STALE": {"selectPoint "}, "R-ZEROSTEP": {"vectorSelector"}},
 		Explanation: "Structural necessary conditions of instant-vector selection, decided for every path of the current source: no iterator sample reaches an emission without passing the staleness test; the per-query lookback delta reaches the plan; shard indices 0..n-1 are each instantiated once, n>=1, and merged by one coalesce; selector operators are built with the @-folded Offset while the select range uses Timestamp/OriginalOffset; a failing Seek is told apart from an exhausted iterator; step cursors cannot stall on instant queries.",
 		NotDecided: []string{
-			"not decided: the age comparison itself (lookback-1/lookback/lookback+1 ms), the arithmetic that folds @ into an offset, the slicing arithmetic of seriesShard and the re-basing sums of sample IDs (value-level)",
+			"not decided: the direction of the age comparison (lookback-1/lookback/lookback+1 ms: R-REFPORT-SELECT sees that the reference's two timestamp comparisons are there, not which operand is the larger one), the arithmetic that folds @ into an offset, the slicing arithmetic of seriesShard and the re-basing sums of sample IDs (value-level)",
 		}})
 	property(&Property{ID: "C03", Level: "other",
 		Rules:       []string{"R-STALE", "R-TRUNCDIV", "R-KERNELBOUNDS", "R-SENTINEL", "R-ITERERR", "R-SLABCAP", "R-REFPORT-RANGE", "R-LABELPOS", "R-CURSORRESET"},
 		Scope:       map[string][]string{"R-CURSORRESET": {"matrixSelector"}, "R-ITERERR": {"selectPoints"}, "R-STALE": {"selectPoints"}, "R-SENTINEL": {"matrixSelector"}},
 		Explanation: "Structural necessary conditions of range-function evaluation: no stale sample enters a window (buffered and sought samples); per-second division uses the untruncated range; every window kernel guards its indexing for 0/1-sample windows (presence rule of irate/idelta/rate-like kernels >= 2 points); the matrix call site honours the 'no output' sentinel; iterator failures surface.",
 		NotDecided: []string{
-			"not decided: window maintenance across steps (previousPoints overlap reuse, ReduceDelta), inclusive/exclusive window edges and the numerical values of the kernels (value-level); a structural diff against the reference kernels was rejected because it fires on behaviour-preserving rewrites",
+			"not decided: window maintenance across steps (previousPoints overlap reuse), the direction of edge comparisons between two variables, the order in which a kernel combines its operands, additions/subtractions (value-level). R-REFPORT-RANGE compares a decision signature that is invariant under renaming, reordering, helper extraction and if/else inversion; it would report a rewrite that replaces a comparison or an operation by a differently shaped equivalent one",
 		}})
 	property(&Property{ID: "C04", Level: "other",
 		Rules:       []string{"R-ACCRESET", "R-INTCONV", "R-SAMPLE0", "R-ONEPERSTEP", "R-PAIRING", "R-SORTEDNAMES", "R-TABLETS", "R-AGGNAME", "R-SHORTCUT", "R-ACCNONEMPTY", "R-ALLOCSIZE", "R-BATCHIDX", "R-VALIDEVERY", "R-REFPORT-AGG", "R-FILLRANGE", "R-COPYWRITE", "R-SCALAREND", "R-STEPEVERY", "R-REFERRORS"},
 		Scope:       map[string][]string{"R-REFERRORS": {"execution/aggregate"}, "R-STEPEVERY": {"execution/aggregate"}, "R-SCALAREND": {"ggregate"}, "R-COPYWRITE": {"execution/aggregate"}, "R-FILLRANGE": {"execution/aggregate"}, "R-BATCHIDX": {"execution/aggregate"}, "R-PAIRING": {"execution/aggregate", "model.VectorPool"}, "R-SAMPLE0": {"execution/aggregate"}, "R-SHORTCUT": {"execution/aggregate"}, "R-SORTEDNAMES": {"execution/aggregate"}, "R-ONEPERSTEP": {"execution/aggregate"}},
 		Explanation: "Structural necessary conditions of aggregation: every accumulator is completely reset per step (tables are reused for every batch); the k/quantile parameter is NaN/range-tested before it is used as an integer; a parameter absent at a step is not indexed; one step vector per step; IDs and values are written in pairs; the grouping names handed to the label hashes are the sorted slice.",
 		NotDecided: []string{
-			"not decided: the group keys/labels themselves, the reduction values, NaN ordering in min/max/topk, tie handling (value-level)",
+			"not decided: the group keys/labels beyond the structural clauses, the reduction values of avg/stddev/stdvar (different algorithms from the reference arm, not compared), tie handling (value-level)",
 		}})
 	property(&Property{ID: "C05", Level: "other",
 		Rules:       []string{"R-BOOLNAME", "R-LABELBUILD", "R-SORTEDNAMES", "R-LABELFRESH", "R-DUPBOOK", "R-SHORTCUT", "R-BATCHIDX", "R-OPTABLE", "R-REFLABELS", "R-COPYWRITE", "R-SCALAREND", "R-STEPEVERY", "R-DROPNAMESET", "R-REFERRORS"},
 		Scope:       map[string][]string{"R-REFERRORS": {"execution/binary"}, "R-STEPEVERY": {"execution/binary"}, "R-SCALAREND": {"scalarOperator"}, "R-COPYWRITE": {"execution/binary"}, "R-BATCHIDX": {"execution/binary"}, "R-SHORTCUT": {"execution/binary"}, "R-SORTEDNAMES": {"execution/binary"}},
 		Explanation: "Structural necessary conditions of binary operators: both operators decide about dropping the metric name from the operator type and the bool modifier; result label sets are never grown by raw appends; matching label names handed to the hashes are sorted; label sets are edited in place only on fresh copies (the operands may be the same pooled selector); the duplicate-match bookkeeping of a step is recorded for every matched sample before the comparison filter can skip it.",
 		NotDecided: []string{
-			"not decided: which pairs match, the values, error text and the step at which an ambiguous match is reported (value-level); an operator missing from the operation tables falls back correctly and is covered by C08",
+			"not decided: which pairs match, the values beyond 'each table entry applies the reference operation to (left, right)', the step at which an ambiguous match is reported (value-level); an operator missing from the operation tables falls back correctly and is covered by C08",
 		}})
 	property(&Property{ID: "C06", Level: "other",
 		Rules:       []string{"R-SENTINEL", "R-POINTFIELDS", "R-PAIRING", "R-ZEROSTEP", "R-SAMPLE0", "R-STEPBOUND", "R-EMPTYSERIES", "R-POINT0", "R-TABLETS", "R-OUTALIAS", "R-HASHSAME", "R-PULLALL", "R-TRUNCDIV", "R-STEPTS", "R-BATCHIDX", "R-REFPORT-INSTANT", "R-OPTABLE", "R-LABELPOS", "R-FILLRANGE", "R-PINNEDPLAN", "R-COPYWRITE", "R-SCALAREND", "R-STEPEVERY"},
 		Scope:       map[string][]string{"R-STEPEVERY": {"execution/function", "step_invariant", "scalarOperator", "numberLiteralSelector"}, "R-SCALAREND": {"scalarOperator"}, "R-COPYWRITE": {"execution/function", "execution/unary", "execution/step_invariant"}, "R-FILLRANGE": {"execution/function"}, "R-BATCHIDX": {"execution/function", "execution/unary", "execution/binary.scalarOperator"}, "R-PAIRING": {"execution/function", "numberLiteralSelector", "step_invariant", "execution/unary", "model.VectorPool"}, "R-SAMPLE0": {"execution/function", "execution/binary.scalarOperator"}, "R-SENTINEL": {"functionOperator", "noArgFunctionOperator"}, "R-STEPTS": {"execution/function", "numberLiteralSelector", "step_invariant", "scalarOperator"}, "R-PULLALL": {"functionOperator", "unaryNegation", "stepInvariantOperator", "scalarOperator"}, "R-STEPBOUND": {"numberLiteralSelector", "noArgFunctionOperator", "stepInvariantOperator"}, "R-EMPTYSERIES": {"functionOperator", "noArgFunctionOperator", "numberLiteralSelector", "histogramOperator", "unaryNegation", "stepInvariantOperator", "scalarOperator"}, "R-ZEROSTEP": {"numberLiteralSelector", "noArgFunctionOperator", "stepInvariantOperator"}, "R-OPTABLE": {"operations["}},
 		Explanation: "Structural necessary conditions of instant functions and scalars: the instant-function call site drops samples its kernel declares absent; every Point field a kernel reads is stored by the call site; IDs/values are written in pairs (time(), scalar()); generator operators cannot stall on a zero step and never emit past the window end; scalar operands are indexed only behind a length test.",
 		NotDecided: []string{
-			"not decided: function values, step alignment of scalar arguments that end early, replication of @-pinned vectors (value-level)",
+			"not decided: function values beyond the decision signature (e.g. clamp with a NaN bound: max<min and !(min<=max) have the same signature), alignment of scalar operands whose stream is shorter but not empty, replication of @-pinned vectors (value-level)",
 		}})
 	property(&Property{ID: "C08", Level: "other",
 		Rules:       []string{"R-VOCAB", "R-ERRPROP", "R-NODECOPY"},
@@ -47,7 +47,7 @@ func init() {
 		Rules:       []string{"R-SLOTPTR", "R-LABELFRESH", "R-MATCHEQ", "R-ATOFFSET", "R-NODECOPY", "R-MEMOKEY", "R-MATCHPOS", "R-FILTERALL", "R-MATCHGROW", "R-DROPEXACT"},
 		Explanation: "Structural necessary conditions of the logical optimizers: every traversal hands out pointers to real slots of the tree, so a replacement (made after in-place edits of the replaced node) lands in the tree in every syntactic position; matcher slices are edited in place only on fresh copies; the subset test that licenses replacing a selector compares name, type and value of the matchers.",
 		NotDecided: []string{
-			"not decided: that the rewrites preserve semantics (filter evaluation on absent labels, repeated label names, matcher union). Three defects of that kind exist on the pinned tree and are reported in DESIGN.md; no exact shape rule for them was found",
+			"not decided: that the rewrites preserve semantics in general; decided are the clauses whose violation produced the defects found so far: every matcher is applied with the value looked up by name, a selector's matcher list is only grown or taken over whole, deletion by label name is reserved for the metric name, matchers are compared by (name, type, value), no positional access",
 		}})
 	property(&Property{ID: "C10", Level: "other",
 		Rules:       []string{"R-SLOTPTR", "R-DISTTABLE", "R-REMOTELOOKBACK", "R-SHARD", "R-PUSHDOWN", "R-NODECOPY", "R-EXPRORIGIN", "R-CORECOUNT", "R-ONEBATCHSIZE"},
@@ -89,13 +89,13 @@ func init() {
 		Rules:       []string{"R-HINTXFER", "R-HINTRANGE", "R-SELKEY", "R-NODECOPY", "R-MEMOKEY", "R-REFPORT-HINTS", "R-SORTCOPY"},
 		Explanation: "Structural necessary conditions of select hints: per node kind the Func/Grouping/By hints are transferred to the children exactly as the reference derives them from the path (shape of the pinned extractFuncFromPath/extractGroupsFromPath re-read on every run); the querier range and hinted range are the same values from one range computation; the select-cache key covers every select parameter that can differ between two selects (range start and end, step, function, grouping, by).",
 		NotDecided: []string{
-			"not decided: the start/end arithmetic; sufficiency of the range under optimizer rewrites (value-level); the order of grouping labels in the hint (sorted in place by the aggregation operators, reported in DESIGN.md)",
+			"not decided: the values of the start/end arithmetic beyond 'only the reference's kinds of integer operations'; sufficiency of the range under optimizer rewrites (value-level)",
 		}})
 	property(&Property{ID: "C17", Level: "other",
 		Rules:       []string{"R-QUERIER", "R-LABELFRESH", "R-QUERYCLOSE", "R-JOIN"},
 		Explanation: "Structural necessary conditions of storage ownership: every querier is closed exactly once by an unconditional defer placed right after the error check; nothing is opened at query creation; label sets are edited in place only on fresh copies; every goroutine that can reach the storage is joined by its spawner on every path to a return, so that no select (and no open querier) outlives Exec.",
 		NotDecided: []string{
-			"not decided: sort.Sort on uncopied (already sorted) storage labels performs no writes - assumed; closing of remote queries that are created but never executed",
+			"not decided: sort.Sort on uncopied (already sorted) storage labels performs no writes - assumed; closing of remote queries that are created but never executed; R-JOIN decides that each spawner waits for its storage-reaching goroutine on every path, not that a single receive from the pull goroutine's buffer means that goroutine has finished",
 		}})
 	property(&Property{ID: "C18", Level: "other",
 		Rules:       []string{"R-INITBEFOREUSE", "R-PAIRING", "R-ONEPERSTEP", "R-STALE", "R-LINEAR", "R-STEPBOUND", "R-SHARDCOPY", "R-TSTAMP", "R-EMPTYSERIES", "R-TABLETS", "R-OUTALIAS", "R-PULLALL", "R-PUTORDER", "R-ENDSTICKY", "R-STEPTS", "R-ONEBATCHSIZE", "R-CURSORRESET", "R-STEPEVERY"},
